@@ -63,6 +63,9 @@ type epochInfo struct {
 	ghosts  bool             // ghost keys are affected too (uncontracted call)
 	unknown map[string]bool     // keys stored through addresses of unknown origin
 	known   map[string][]string // keys stored through addresses rooted at known allocations (id terms)
+	stable     map[string]bool  // stable ghosts (changed only by contracts naming them)
+	ghostSet   map[string]bool  // ghosts named by `sets` of contracts reachable in the havoced region
+	younger    string           // call havoc limited to objects at least as young as this root id term
 	entryClock string           // loop havoc: allocation clock at loop entry (frame covers older objects only)
 	newClock   string           // allocation clock after the havoc (loaded pointers are not younger)
 	conds   []string
@@ -75,6 +78,9 @@ func (ei *epochInfo) affected(key string) bool {
 		return false
 	}
 	if strings.HasPrefix(key, "ghost:") {
+		if ei.stable != nil && ei.stable[strings.TrimPrefix(key, "ghost:")] {
+			return ei.ghostSet[strings.TrimPrefix(key, "ghost:")]
+		}
 		return ei.ghosts
 	}
 	return ei.all || ei.unknown[key] || len(ei.known[key]) > 0
@@ -274,6 +280,12 @@ func (v *VC) rangeFact(t types.Type, e string) string {
 		return fmt.Sprintf("(and (<= %s %s) (<= %s %s))", lo, e, e, hi)
 	}
 	switch u := t.Underlying().(type) {
+	case *types.Pointer:
+		// Go is type safe (no unsafe in the verified text): a non-nil *T points to a T
+		if id := v.pointeeID(u.Elem()); id > 0 {
+			v.features["tyof"] = true
+			return fmt.Sprintf("(=> (not (= %s nilp)) (= (tyof %s) %d))", e, e, id)
+		}
 	case *types.Slice:
 		return fmt.Sprintf("(and (<= 0 (s-off %s)) (<= 0 (s-len %s)) (<= (s-len %s) (s-cap %s)) (<= (s-cap %s) 9223372036854775807) (=> (= (s-base %s) nilp) (= (s-cap %s) 0)))", e, e, e, e, e, e, e)
 	case *types.Basic:
@@ -292,6 +304,25 @@ func (v *VC) rangeFact(t types.Type, e string) string {
 		if len(fs) > 0 {
 			return "(and " + strings.Join(fs, " ") + ")"
 		}
+	}
+	return "true"
+}
+
+// pointeeID identifies the memory layout a pointer of element type t refers to (by underlying
+// type, so that legal conversions between pointer types keep the id). 0 = not tracked.
+func (v *VC) pointeeID(t types.Type) int {
+	switch t.Underlying().(type) {
+	case *types.Struct, *types.Basic, *types.Array, *types.Slice, *types.Map, *types.Pointer:
+		return v.typeID(t.Underlying())
+	}
+	return 0
+}
+
+// tyofFact: address x holds a value of type t.
+func (v *VC) tyofFact(t types.Type, x string) string {
+	if id := v.pointeeID(t); id > 0 {
+		v.features["tyof"] = true
+		return fmt.Sprintf("(= (tyof %s) %d)", x, id)
 	}
 	return "true"
 }
@@ -419,7 +450,7 @@ func (v *VC) resolve(key string, e int) string {
 		v.heapVer++
 		name = fmt.Sprintf("HE%d_%s", v.heapVer, sanitize(key))
 		v.declHeap(name, key)
-		v.emitFrame(key, name, par, ei.known[key], ei.extOnly(key), ei.entryClock, ei.newClock)
+		v.emitFrame(key, name, par, ei.known[key], ei.extOnly(key), ei.entryClock, ei.newClock, ei.younger)
 	case "merge":
 		var ps []string
 		same := true
@@ -447,13 +478,15 @@ func (v *VC) resolve(key string, e int) string {
 }
 
 // emitFrame: relation between a havoced heap version and its predecessor.
-func (v *VC) emitFrame(key, nm, old string, known []string, extOnly bool, entryClock, newClock string) {
+func (v *VC) emitFrame(key, nm, old string, known []string, extOnly bool, entryClock, newClock string, younger string) {
 	srt := v.heapKeys[key]
 	if strings.HasPrefix(key, "ghost:") {
 		return
 	}
 	var conds []string
-	if extOnly {
+	if extOnly && younger != "" {
+		conds = append(conds, fmt.Sprintf("(or (not (ext p)) (< (root p) %s))", younger))
+	} else if extOnly {
 		conds = append(conds, "(not (ext p))")
 	}
 	if entryClock != "" {
@@ -589,23 +622,27 @@ func (v *VC) heapSet(h *Heap, key, term string) string {
 // havocAll models a call to code we know nothing about: every cell that is not a private local
 // may change; results of later loads are arbitrary (but never private pointers). Ghost state is
 // havoced too when ghosts is set (callee without any contract).
-func (v *VC) havocAll(h *Heap, ghosts bool) {
+func (v *VC) havocAll(h *Heap, ghosts bool) { v.havocYounger(h, ghosts, "") }
+
+// havocYounger: like havocAll, but cells of objects older than the given root id keep their value
+// (assumed frame "modifies younger(x)": the callee writes only to x's object and younger ones).
+func (v *VC) havocYounger(h *Heap, ghosts bool, younger string) {
 	_, nw := v.advanceClock(h)
 	keys := make([]string, 0, len(h.m))
 	for k := range h.m {
 		keys = append(keys, k)
 	}
 	sort.Strings(keys)
-	ne := v.newEpoch(&epochInfo{kind: "havoc", parent: h.epoch, all: true, ghosts: ghosts, newClock: nw})
+	ne := v.newEpoch(&epochInfo{kind: "havoc", parent: h.epoch, all: true, ghosts: ghosts, newClock: nw, stable: v.P.db.StableGhosts, younger: younger})
 	for _, k := range keys {
-		if k == clockKey || (strings.HasPrefix(k, "ghost:") && !ghosts) {
+		if k == clockKey || (strings.HasPrefix(k, "ghost:") && (!ghosts || v.P.db.StableGhosts[strings.TrimPrefix(k, "ghost:")])) {
 			continue
 		}
 		old := h.m[k]
 		v.heapVer++
 		nm := fmt.Sprintf("H%d_%s", v.heapVer, sanitize(k))
 		v.declHeap(nm, k)
-		v.emitFrame(k, nm, old, nil, true, "", nw)
+		v.emitFrame(k, nm, old, nil, true, "", nw, younger)
 		h.m[k] = nm
 	}
 	h.epoch = ne
